@@ -21,6 +21,8 @@ Definition p_op : parser op :=
   | 8 => pret (Validate p b) | 9 => pret (Timer p) | 10 => pret (CmdOpen p) | 11 => pret (CmdClose p)
   | 12 => pret (CmdForce p) | 13 => pret (TaskDie p b) | 14 => pret (Release p) | 15 => pret (KillChan p)
   | 16 => pret (Gate p) | 17 => pret (Notify p) | 18 => pret (NotifyDie p b)
+  | 20 => pret (GrabSink p) | 21 => pret (SendSync p a) | 22 => pret (SendAsync p a)
+  | 23 => pret (SinkSync p a) | 24 => pret (SinkAsync p a)
   | _ => pfail
   end.
 
@@ -57,7 +59,10 @@ Definition enc_ev (e : uev) : list N :=
   | UNotif p => [4; p; 0]
   end.
 Definition enc_call (c : call) : list N :=
-  match c with CDial p => [0; p; 0] | COpen p x => [1; p; x] | CForce p => [2; p; 0] end.
+  match c with
+  | CDial p => [0; p; 0] | COpen p x => [1; p; x] | CForce p => [2; p; 0]
+  | CRet p code => [3; p; code] | CWire p k m => [4; p; k * 1000000 + m]
+  end.
 Definition enc_inb (i : inb) : N :=
   match i with IClosed => 0 | IReading => 1 | IValidating => 2 | ISending => 3 | IOpen => 4 end.
 Definition enc_ps (x : option pstate) : list N :=
@@ -140,7 +145,11 @@ Definition p_ev : parser uev :=
   end.
 Definition p_call : parser call :=
   let* k := pN in let* p := pN in let* a := pN in
-  match k with 0 => pret (CDial p) | 1 => pret (COpen p a) | 2 => pret (CForce p) | _ => pfail end.
+  match k with
+  | 0 => pret (CDial p) | 1 => pret (COpen p a) | 2 => pret (CForce p)
+  | 3 => pret (CRet p a) | 4 => pret (CWire p (a / 1000000) (a mod 1000000))
+  | _ => pfail
+  end.
 Definition dec_inb (x : N) : option inb :=
   match x with 0 => Some IClosed | 1 => Some IReading | 2 => Some IValidating | 3 => Some ISending
           | 4 => Some IOpen | _ => None end.
@@ -216,7 +225,7 @@ Definition pobs_eqb (a b : pobs) : bool :=
 Definition ev_peer (e : uev) : peer :=
   match e with UValidate p | UOpened p _ | UClosed p | UFail p _ | UNotif p => p end.
 Definition call_peer (c : call) : peer :=
-  match c with CDial p | COpen p _ | CForce p => p end.
+  match c with CDial p | COpen p _ | CForce p | CRet p _ | CWire p _ _ => p end.
 
 (* inbound substream accepted: handshake being sent or sent *)
 Definition in_accepted (x : option pstate) : bool :=
@@ -252,11 +261,14 @@ Record omem := mkOmem {
   m_opened : peer -> bool;              (* user view: last of Opened/Closed was Opened *)
   m_gated : peer -> bool;               (* a Connection task of the peer may be slow to close *)
   m_req : list (sid * peer);            (* open_substream requests not answered by the case *)
-  m_failed : list sid                   (* requests answered with a failure *)
+  m_failed : list sid;                  (* requests answered with a failure *)
+  m_cnt : N;                            (* NotificationStreamOpened events so far = stream periods *)
+  m_sink : peer -> option N;            (* the period whose sink the handle holds for the peer *)
+  m_usink : peer -> option N            (* the period of the sink clone the user keeps *)
 }.
 
 Definition omem0 : omem :=
-  mkOmem [absent; absent; absent] (fun _ => false) (fun _ => false) [] [].
+  mkOmem [absent; absent; absent] (fun _ => false) (fun _ => false) [] [] 0 (fun _ => None) (fun _ => None).
 
 (* failures: bit 0 = outside every known class, bit 1 = class 1 (slow close), bit 2 = class 2
    (failed substream id kept pending), bit 3 = class 3 (user Reject drops the open request) *)
@@ -287,6 +299,16 @@ Fixpoint grammar (opened : peer -> bool) (gated : peer -> bool) (l : list uev) :
           (o', N.lor (if opened p then 0 else bad p) f)
       | UValidate _ => grammar opened gated t
       end
+  end.
+
+(* the handle's sink table as the user-visible events dictate it: period numbers are handed out in the
+   order of the Opened events *)
+Fixpoint sinks (cnt : N) (sk : peer -> option N) (l : list uev) : N * (peer -> option N) :=
+  match l with
+  | [] => (cnt, sk)
+  | UOpened p _ :: t => sinks (cnt + 1) (upd sk p (Some cnt)) t
+  | UClosed p :: t => sinks cnt (upd sk p None) t
+  | _ :: t => sinks cnt sk t
   end.
 
 Definition flag (b : bool) (f : N) : N := if b then 0 else f.
@@ -379,15 +401,38 @@ Definition check_step (c : cfg) (m : omem) (o : op) (x : sobs) : omem * N :=
         else if existsb (N.eqb y) failed then F_KEPT else F_GEN
     | None => 0
     end in
-  (mkOmem (o_peers x) opened' gated req failed,
-   N.lor (flag (iso && acc && cl && ans && (leave || rej)) F_GEN)
+  (* 8. "can send notifications only between the two": a frame reaches a substream only in a send
+     operation, with that message, on the stream period whose sink the operation uses: through the handle
+     the period of the last Opened that the user has not seen Closed (nothing at all when there is
+     none: the call returns Ok / PeerDoesntExist and nothing else happens), through a kept clone the
+     period it was cloned in *)
+  let wires := flat_map (fun cl => match cl with CWire q k mm => [(q, k, mm)] | _ => [] end) (o_calls x) in
+  let wire_ok (sk : option N) (msg : N) :=
+    forallb (fun w : peer * N * N =>
+               let '(q, k, mm) := w in
+               (q =? p) && (mm =? msg) && match sk with Some k0 => k =? k0 | None => false end) wires in
+  let send :=
+    match o with
+    | SendSync _ msg | SendAsync _ msg => wire_ok (if o_hopen pre then m_sink m p else None) msg
+    | SinkSync _ msg | SinkAsync _ msg => wire_ok (m_usink m p) msg
+    | _ => match wires with [] => true | _ => false end
+    end in
+  let usink' :=
+    match o with
+    | GrabSink _ => match m_usink m p, m_sink m p with None, Some k => upd (m_usink m) p (Some k) | _, _ => m_usink m end
+    | _ => m_usink m
+    end in
+  let '(cnt', sink') := sinks (m_cnt m) (m_sink m) (o_ev x) in
+  (mkOmem (o_peers x) opened' gated req failed cnt' sink' usink',
+   N.lor (flag (iso && acc && cl && ans && send && (leave || rej)) F_GEN)
          (N.lor (flag (leave || negb rej) F_REJ) (N.lor fg owed))).
 
 (* a SleepAll step is a batch of timer events for several peers: only the event grammar and the
    bookkeeping of the oracle are applied to it *)
 Definition check_batch (m : omem) (x : sobs) : omem * N :=
   let '(opened', fg) := grammar (m_opened m) (m_gated m) (o_ev x) in
-  (mkOmem (o_peers x) opened' (m_gated m) (m_req m) (m_failed m), fg).
+  let '(cnt', sink') := sinks (m_cnt m) (m_sink m) (o_ev x) in
+  (mkOmem (o_peers x) opened' (m_gated m) (m_req m) (m_failed m) cnt' sink' (m_usink m), fg).
 
 Fixpoint check_steps (c : cfg) (m : omem) (ops : list gop) (tr : list sobs) : N :=
   match ops, tr with
